@@ -279,7 +279,7 @@ namespace Givaro {
 
 
             //linear version
-        if (k < 29) return sqroottwolinear (x, a, k);
+        if (k < 29) return sqroottwolinear (x, tmpa, k);
         else {
 
             Rep un (1);
